@@ -98,7 +98,7 @@ static LIVE_LOG: StdMutex<Vec<Raw>> = StdMutex::new(Vec::new());
 static SEED: AtomicU64 = AtomicU64::new(1);
 static PERTURB: AtomicU64 = AtomicU64::new(0); // per-mille of hooked operations that are delayed
 pub static LIVE_EVENTS: AtomicUsize = AtomicUsize::new(0);
-thread_local! { static RNG: Cell<u64> = const { Cell::new(0) }; static HOLD: Cell<bool> = const { Cell::new(false) }; }
+thread_local! { static RNG: Cell<u64> = const { Cell::new(0) }; static DEPTH: Cell<u32> = const { Cell::new(0) }; }
 
 fn trnd() -> u64 {
     RNG.with(|r| {
@@ -206,6 +206,13 @@ fn before(ev: &Ev) {
             if !keep(ev.site.file()) {
                 return;
             }
+            let d = DEPTH.get();
+            if d > 0 {
+                // a kept operation nested inside a kept operation of this thread (e.g. a value with hooked fields
+                // dropped inside `opt.store`): it runs under the log lock the outer operation already holds
+                DEPTH.set(d + 1);
+                return;
+            }
             let p = PERTURB.load(Ordering::Relaxed);
             if p > 0 && trnd() % 1000 < p {
                 match trnd() % 4 {
@@ -215,7 +222,7 @@ fn before(ev: &Ev) {
                 }
             }
             loglock();
-            HOLD.set(true);
+            DEPTH.set(1);
         }
         _ => {}
     }
@@ -238,38 +245,44 @@ fn mk(actor: String, ev: &Ev, r: u64, flag: u8) -> Raw {
 }
 
 fn after(ev: &Ev, r: u64, flag: u8) {
-    // the log lock taken in `before` must be released whatever happened to MODE in between
-    // (live_stop may flip it while this thread sleeps in the perturbation)
-    if HOLD.get() {
-        HOLD.set(false);
+    // live mode: the log lock taken in `before` must be released whatever happened to MODE in between
+    // (live_stop may flip it while this thread sleeps in the perturbation); only operations that `before` kept
+    // take part (an operation of another layer nested inside a kept one must not take over its log slot)
+    let d = DEPTH.get();
+    if d > 0 {
+        if !keep(ev.site.file()) {
+            return;
+        }
         if MODE.load(Ordering::Relaxed) == MODE_LIVE {
             LIVE_LOG.lock().unwrap_or_else(|e| e.into_inner()).push(mk(live_actor(), ev, r, flag));
             LIVE_EVENTS.fetch_add(1, Ordering::Relaxed);
         }
-        logunlock();
-        return;
-    }
-    match MODE.load(Ordering::Relaxed) {
-        MODE_DET => {
-            let me = ME.get();
-            if me == usize::MAX || !keep(ev.site.file()) {
-                return;
-            }
-            with(|c| {
-                let a = c.names[me].clone();
-                c.log.push(mk(a, ev, r, flag))
-            });
-        }
-        MODE_LIVE => {
-            if !HOLD.get() {
-                return;
-            }
-            HOLD.set(false);
-            LIVE_LOG.lock().unwrap_or_else(|e| e.into_inner()).push(mk(live_actor(), ev, r, flag));
-            LIVE_EVENTS.fetch_add(1, Ordering::Relaxed);
+        DEPTH.set(d - 1);
+        if d == 1 {
             logunlock();
         }
-        _ => {}
+        return;
+    }
+    if MODE.load(Ordering::Relaxed) == MODE_DET {
+        let me = ME.get();
+        if me == usize::MAX || !keep(ev.site.file()) {
+            return;
+        }
+        with(|c| {
+            let a = c.names[me].clone();
+            c.log.push(mk(a, ev, r, flag))
+        });
+    }
+}
+
+/// run `f` under the live log lock (re-entrant on the thread that already holds it inside a hooked operation)
+fn with_loglock(f: impl FnOnce()) {
+    if DEPTH.get() > 0 {
+        f();
+    } else {
+        loglock();
+        f();
+        logunlock();
     }
 }
 
@@ -366,9 +379,7 @@ fn note(kind: &'static str, what: &str) {
             });
         }
         MODE_LIVE => {
-            loglock();
-            LIVE_LOG.lock().unwrap_or_else(|e| e.into_inner()).push(note_raw(live_actor(), kind, what));
-            logunlock();
+            with_loglock(|| LIVE_LOG.lock().unwrap_or_else(|e| e.into_inner()).push(note_raw(live_actor(), kind, what)));
         }
         _ => {}
     }
@@ -423,9 +434,7 @@ fn api(kind: &'static str, name: &str, a1: u64, a2: u64) {
             });
         }
         MODE_LIVE => {
-            loglock();
-            LIVE_LOG.lock().unwrap_or_else(|e| e.into_inner()).push(r(live_actor()));
-            logunlock();
+            with_loglock(|| LIVE_LOG.lock().unwrap_or_else(|e| e.into_inner()).push(r(live_actor())));
         }
         _ => {}
     }
